@@ -31,7 +31,7 @@ type ownerT struct {
 
 const (
 	nAccounts   = 3
-	deriveLimit = 96
+	deriveLimit = 160
 )
 
 var purposes = []int{44, 49, 84, 86}
